@@ -2,7 +2,7 @@
 import itertools
 
 import envelope as E
-from common import compare_gen, run_model, enc, unbits, bits, same_float
+from common import rel_close, compare_gen, run_model, enc, unbits, bits, same_float
 
 ID = 'C01'
 LEAN_MODULES = ['Dhlldv.Props.C01']
@@ -150,6 +150,53 @@ def monitor(ctx, extended=False):
                                   key='selection-law')
     finally:
         F.use_sf, F.use_sqrtcx = True, True
+    # what a slurry object ('fresh' / 'salt' carrier) REPORTS for a uniform sand at constant spatial concentration is the same quantity: every tabulated point
+    # (line speed, the object's D50, its Cv) and every point of its two limit-deposit-velocity curves (their own grain size D50 / D85, their own concentration)
+    # equals the framework's value at that point, its regime is the framework's regime, and its per-regime values are the standalone models' - also after an
+    # edit of the pipe diameter or the grading
+    from DHLLDV import homogeneous as Ho_, heterogeneous as He_, stratified as St_
+    for k_ in range(ctx.n(4, 100)):
+        pp = E.slurry_params(ctx.rng)
+        try:
+            so = E.make_slurry(pp, max_index=8)
+            hist_ = ['built']
+            if k_ % 2 == 1:
+                _ = so.Erhg_curves
+                nu_, rhol_ = E.fluids()[pp['fluid']]
+                newDp = ctx.rng.choice([d_ for d_ in (0.3, 0.5, 0.762, 0.9) if d_ != pp['Dp'] and pp['D50'] > max(E.dlim(d_, nu_, rhol_, pp['rhos']), 5e-5) * 1.001
+                                        and pp['D50'] * pp['r85'] <= 0.5 * d_ and pp['D50'] <= 0.25 * d_] or [pp['Dp']])
+                so.Dp = newDp
+                hist_ += ['curves read', f'Dp={newDp}']
+            base = (so.Dp, so.D50, so.epsilon, so.nu, so.rhol, so.rhos)
+            ec = so.Erhg_curves
+            for i_, v_ in list(enumerate(so.vls_list))[::3]:
+                ctx.count('evaluations')
+                a_ = (v_, base[0], base[1], base[2], base[3], base[4], base[5], so.Cv)
+                want = F.Cvs_Erhg(*a_, get_dict=True)
+                got = {'Cvs_Erhg': ec['Cvs_Erhg'][i_], 'FB': ec['FB'][i_], 'SB': ec['SB'][i_], 'He': ec['He'][i_], 'Ho': ec['Ho'][i_]}
+                exp = {'Cvs_Erhg': want[want['regime']], 'FB': St_.fb_Erhg(*a_), 'SB': St_.Erhg(*a_), 'He': He_.Erhg(*a_, F.use_sf, F.use_sqrtcx), 'Ho': Ho_.Erhg(*a_)}
+                bad = [k for k in got if not rel_close(got[k], exp[k], 1e-12)]
+                if bad or ec['Cvs_regime'][i_] not in (want['regime'], F.Cvs_regime(*a_)):
+                    ctx.violation(f'slurry object reports {got} / {ec["Cvs_regime"][i_]!r} at {v_} m/s; the framework and the standalone models give {exp} / {want["regime"]!r} for the same slurry',
+                                  {'slurry': pp, 'history': hist_, 'vls': v_}, key='selection-law')
+                    break
+            nu_, rhol_ = so.nu, so.rhol
+            for cname, frac in (('LDV_curves', 0.5), ('LDV85_curves', 0.85)):
+                d_ = so.get_dx(frac)
+                cur = getattr(so, cname)
+                if not (5e-5 <= d_ <= 0.25 * so.Dp):
+                    continue
+                for cv_, v_, e_ in list(zip(cur['Cv'], cur['vls'], cur['Erhg']))[2:45:6]:
+                    if not (0.02 <= cv_ <= 0.45 and 0.1 <= v_ <= 10):
+                        continue
+                    ctx.count('evaluations')
+                    want = F.Cvs_Erhg(v_, so.Dp, d_, so.epsilon, so.nu, so.rhol, so.rhos, cv_)
+                    if not rel_close(e_, want, 1e-12):
+                        ctx.violation(f'slurry object {cname}: reported Erhg {e_!r} at ({v_} m/s, Cvs={cv_}) for its {d_ * 1000:.4f} mm grain; the framework gives {want!r} for that uniform sand',
+                                      {'slurry': pp, 'history': hist_, 'curve': cname, 'Cvs': cv_}, key='selection-law')
+                        break
+        except Exception as e:   # noqa
+            ctx.violation(f'slurry object stratum raised {type(e).__name__}: {e}', {'slurry': pp}, key='selection-law')
     ctx.stats['distinct_nontrivial'] = len(classes) + ctx.stats.get('orderings_checked', 0) // 4
     ctx.stats['regime_classes'] = sorted(map(str, classes))
 
